@@ -271,7 +271,11 @@ def run_reject(mid, tindex, n, pre=0):
         info = {'in': inputs, 'tags': ['pre:%d' % pre]}
         sheet = build(cssutils)
         PRE_OPS[pre](cssutils, sheet)
-        target = TARGETS[tname](sheet)
+        try:
+            target = TARGETS[tname](sheet)
+        except LookupError:
+            info['tags'].append('target-removed-by-prior-edit')
+            return True, info
         before = snapshot(sheet, target)
         text = fill(template, holes)
         try:
